@@ -162,17 +162,20 @@ Fixpoint glob_iter_run (st : N) (fuel : nat) (pr tr : str) (star : option (str *
     match tr with
     | [] => Some (match drop_stars st pr with [] => true | _ => false end)
     | x :: tr' =>
-      let backtrack :=
-        match star with
-        | Some (sp, mt) => let mt' := tl mt in glob_iter_run st f sp mt' (Some (sp, mt'))
-        | None => Some false
-        end in
+      (* the backtracking branch is written out twice (not as a let): extraction to a strict language
+         would otherwise evaluate it on every iteration *)
       match pr with
       | c :: pr' =>
         if c =? st then glob_iter_run st f pr' tr (Some (pr', tr))
         else if c =? x then glob_iter_run st f pr' tr' star
-        else backtrack
-      | [] => backtrack
+        else match star with
+             | Some (sp, mt) => let mt' := tl mt in glob_iter_run st f sp mt' (Some (sp, mt'))
+             | None => Some false
+             end
+      | [] => match star with
+              | Some (sp, mt) => let mt' := tl mt in glob_iter_run st f sp mt' (Some (sp, mt'))
+              | None => Some false
+              end
       end
     end
   end.
